@@ -7,10 +7,24 @@
 (* action.                                                                    *)
 EXTENDS Naturals, Sequences, FiniteSets, TLC, Json
 
-CONSTANTS MaxStr, Mode        \* Mode in {"strings", "placements"}
+CONSTANTS MaxStr, Mode        \* Mode in {"strings", "placements", "forms"}
 
 VARIABLES str, places, done
 vars == <<str, places, done>>
+
+\* "forms": statements that go through the less travelled serializer paths - attribute selectors whose quoted value may or may
+\* not be printable as an identifier, CSS functions that share a name with a Sass function, colours with zero alpha, and
+\* blocks whose children include a rule that produces no output between two statements
+Forms == <<"[a=\"-1\"] { p: q; }", "[a=\"-\"] { p: q; }", "[a=\"x y\"] { p: q; }", "[a=\"1a\"] { p: q; }", "[a=\"--x\"] { p: q; }",
+           "[a=\"b\"] { p: q; }", "[a=\"\"] { p: q; }", "[a^=\"-10px\"] { p: q; }", "[a=b] { p: q; }",
+           "f { filter: saturate(180%); }", "f { filter: grayscale(50%) invert(30%); }", "f { filter: alpha(opacity=50); }",
+           "f { filter: opacity(20%); backdrop-filter: saturate(2); }", "c { from: rgba(51, 102, 204, 0); via: transparentize(red, 1); }",
+           "c { k: rgba(0, 0, 0, 0); l: transparent; m: hsla(10, 20%, 30%, 0.5); }", "c { n: min(1px, 2em); o: calc(1px + 2%); }",
+           "i { p: q !important; r: 1e3; s: U+26; }",
+           "@page :first { margin: 1in; %ph1 { x: y; } size: a4; }", "@font-face { font-family: f; e1 { } src: url(u); }",
+           "@foo bar { a: b; %ph2 { c: d; } e: f; }", "@media print { @layer base; %ph3 { x: y; } c { d: e; } }",
+           "@media print { @layer base; c { d: e; } }", "g { b: c; %ph4 { t: u; } d { e: f; } h: i; }",
+           "@foo bar { e2 { } a: b; e3 { } }", "@media screen { %ph5 { x: y; } @foo baz; j { k: l; } }">>
 
 \* source spelling of each atom inside a double-quoted SCSS string
 Atoms == <<"a", "B", "F", "1", " ", "\\a", "\\a ", "\\9", "\\\"", "'", "\\\\", "é", "#", "{", "/", "\\0">>
@@ -19,8 +33,9 @@ Places == {"value", "selector", "comment", "media", "supports", "import", "atrul
 Init == str = <<>> /\ places = {} /\ done = FALSE
 AddAtom(i) == Mode = "strings" /\ ~done /\ Len(str) < MaxStr /\ str' = Append(str, i) /\ UNCHANGED <<places, done>>
 AddPlace(p) == Mode = "placements" /\ ~done /\ p \notin places /\ places' = places \cup {p} /\ UNCHANGED <<str, done>>
-Finish == ~done /\ (Mode = "strings" => Len(str) > 0) /\ done' = TRUE /\ UNCHANGED <<str, places>>
-Next == (\E i \in 1..Len(Atoms) : AddAtom(i)) \/ (\E p \in Places : AddPlace(p)) \/ Finish
+AddForm(i) == Mode = "forms" /\ ~done /\ Len(str) < MaxStr /\ str' = Append(str, i) /\ UNCHANGED <<places, done>>
+Finish == ~done /\ (Mode \in {"strings", "forms"} => Len(str) > 0) /\ done' = TRUE /\ UNCHANGED <<str, places>>
+Next == (\E i \in 1..Len(Atoms) : AddAtom(i)) \/ (\E p \in Places : AddPlace(p)) \/ (\E i \in 1..Len(Forms) : AddForm(i)) \/ Finish
 Spec == Init /\ [][Next]_vars
 
 RECURSIVE Cat(_, _)
@@ -28,7 +43,8 @@ Cat(s, i) == IF i > Len(s) THEN "" ELSE Atoms[s[i]] \o Cat(s, i + 1)
 
 X(p) == IF p \in places THEN "é" ELSE "e"
 Sheet ==
-  IF Mode = "strings" THEN <<"a { content: \"" \o Cat(str, 1) \o "\"; --c: \"" \o Cat(str, 1) \o "\"; }">>
+  IF Mode = "forms" THEN [i \in 1..Len(str) |-> Forms[str[i]]]
+  ELSE IF Mode = "strings" THEN <<"a { content: \"" \o Cat(str, 1) \o "\"; --c: \"" \o Cat(str, 1) \o "\"; }">>
   ELSE <<"@import url(\"http://x/" \o X("import") \o "\");",
          "/* c" \o X("comment") \o " */",
          ".s" \o X("selector") \o " { v: \"" \o X("value") \o "\"; --k: " \o X("custom") \o "; }",
